@@ -399,6 +399,90 @@ def store_strategy(cls):
     return strat
 
 
+# ---------------------------------------------------------------------------------- unusual item values
+VALUES = [None, 0, "", False, (), 0.0, 1, "a", "eos", 7]
+VFILTERS = {
+    "any": lambda it: True,
+    "is_none": lambda it: it is None,
+    "falsy": lambda it: not it,
+    "truthy": lambda it: bool(it),
+    "str": lambda it: isinstance(it, str),
+    "never": lambda it: False,
+}
+
+
+def run_values(case):
+    """items are arbitrary Python values - None (an end-of-stream marker), 0, '', False: nothing may treat an item's value as
+    'no item'. Unbounded Store / FilterStore, puts never block; reference: pending getters are served oldest first, each taking
+    the first held item (in insertion order) that its filter accepts; a FilterStore getter is skipped only while nothing matches"""
+    env = Environment()
+    filt = case["cls"] == "FilterStore"
+    store = FilterStore(env) if filt else Store(env)
+    held, waiting, want, got = [], [], {}, {}
+    n_get = 0
+
+    def serve():
+        i = 0
+        while i < len(waiting):
+            gid, f = waiting[i]
+            idx = next((k for k, it in enumerate(held) if f(it)), None)
+            if idx is None:
+                if not filt:
+                    break
+                i += 1
+                continue
+            want[gid] = held.pop(idx)
+            del waiting[i]
+    specials = 0
+    for op in case["ops"]:
+        if op[0] == "put":
+            item = VALUES[op[1] % len(VALUES)]
+            try:
+                store.put(item)
+            except BaseException as e:
+                raise crash("C07.no_exception", e, f"put({item!r})")
+            held.append(item)
+            if not item:
+                specials += 1
+        else:
+            gid = n_get
+            n_get += 1
+            fname = op[1] if filt else "any"
+            f = VFILTERS[fname]
+            try:
+                ev = store.get(f) if filt else store.get()
+            except BaseException as e:
+                raise crash("C07.no_exception", e, "get()")
+            ev.callbacks.append(lambda e, gid=gid: got.__setitem__(gid, e.value))
+            waiting.append((gid, f))
+        serve()
+        try:
+            env.run()
+        except BaseException as e:
+            raise crash("C07.no_exception", e, "while serving requests")
+        if set(got) != set(want) or any(got[k] is not want[k] and got[k] != want[k] for k in got) \
+                or any(type(got[k]) is not type(want[k]) for k in got):
+            raise Violation("C07.exactly_once", f"{case['cls']} after {case['ops'][:case['ops'].index(op) + 1]}: getters received "
+                                                f"{got}, reference {want} (held {held})", "C07.exactly_once/values/" + case["cls"])
+        if len(store.items) != len(held) or any(type(a) is not type(b) or a != b for a, b in zip(store.items, held)):
+            raise Violation("C07.conservation", f"{case['cls']} holds {store.items}, reference {held}", "C07.conservation/values")
+    classes = set()
+    if any(v is None for v in want.values()):
+        classes.add("None delivered as an item")
+    if any(not v and v is not None for v in want.values()):
+        classes.add("falsy item delivered")
+    if waiting:
+        classes.add("getter left waiting")
+    return {"nontrivial": specials >= 1 and len(want) >= 2, "classes": sorted(classes)}
+
+
+def values_strategy(tier):
+    put = st.tuples(st.just("put"), st.integers(0, len(VALUES) - 1)).map(list)
+    get = st.tuples(st.just("get"), st.sampled_from(sorted(VFILTERS))).map(list)
+    return st.fixed_dictionaries({"cls": st.sampled_from(["FilterStore", "FilterStore", "Store"]),
+                                  "ops": st.lists(kgen.weighted([(put, 1), (get, 1)]), min_size=3, max_size=14)})
+
+
 PROP = Property(
     "C07",
     rule=("Histories of put/get/cancel commands (groups of 1-3 commands at one instant executed by actor processes, drained "
@@ -411,7 +495,9 @@ PROP = Property(
           "puts and gets each granted oldest-first (FilterStore: a getter is overtaken only while no held item matches its "
           "filter); at every clock advance the oldest pending put and get (FilterStore: every pending get) are "
           "unsatisfiable; amounts <= 0 raise ValueError without effect; nothing raises. Non-trivial = a blocked request "
-          "later granted AND a cancelled head request with a pending successor AND an instant with both a put and a get."),
+          "later granted AND a cancelled head request with a pending successor AND an instant with both a put and a get. "
+          "Facet values: unbounded Store/FilterStore holding None, 0, '', False, () and ordinary items; every getter receives "
+          "exactly the item a reference FIFO/first-match model hands it (identity or equality and type), after every operation."),
     facets=[
         Facet("Container", container_strategy, run_case, quick=700, thorough=5000,
               essential=["blocked_then_granted", "cancel_head_with_successor", "amount==free space", "amount==level",
@@ -422,6 +508,8 @@ PROP = Property(
               essential=["blocked_then_granted", "equal priorities", ">=6 items held at a get"]),
         Facet("FilterStore", store_strategy("FilterStore"), run_case, quick=500, thorough=4000,
               essential=["blocked_then_granted", "filter getter overtaken", "cancel_head_with_successor"]),
+        Facet("values", values_strategy, run_values, quick=600, thorough=4000,
+              essential=["None delivered as an item", "falsy item delivered", "getter left waiting"]),
     ],
     assumptions=["grants are observed as request events being triggered (schedule hook)"],
 )
